@@ -632,8 +632,54 @@ func c11Pairing(c *Check) {
 				}
 			}
 			msg := ""
+			// a roll-back written as `defer func() { if err != nil { g.x.Release() } }()` right after stage x succeeded: it
+			// runs at every return with the error variable it tests; it gives stage x back exactly when the failing stage
+			// assigned that very variable (a shadowing `err :=` leaves the tested variable nil)
+			stErr := errVarAssigned(info, st.pt.Node(), st.call)
+			deferredRelease := func(j int) bool {
+				other := stages[j]
+				oErr := errVarAssigned(info, other.pt.Node(), other.call)
+				var dpts []Pt
+				for _, q := range r.F.Points() {
+					ds, ok := q.Node().(*ast.DeferStmt)
+					if !ok {
+						continue
+					}
+					fl, ok := ast.Unparen(ds.Call.Fun).(*ast.FuncLit)
+					if !ok || len(fl.Body.List) != 1 {
+						continue
+					}
+					is, ok := fl.Body.List[0].(*ast.IfStmt)
+					if !ok || is.Else != nil || stErr == nil {
+						continue
+					}
+					if ns, isTest := nilTest(info, is.Cond, stErr); !isTest || ns != 1 {
+						continue // not `stErr != nil`
+					}
+					rel := false
+					for _, c2 := range callsIn(is.Body) {
+						if methodName(c2) == "Release" {
+							if fv := fieldOf(info, callRecv(c2)); fv != nil && objName(fv) == other.field {
+								rel = true
+							}
+						}
+					}
+					if rel {
+						dpts = append(dpts, q)
+					}
+				}
+				if len(dpts) == 0 || oErr == nil {
+					return false
+				}
+				// registered on every path from the successful earlier stage to this stage
+				_, escapes := r.F.ReachRefined(other.pt, oErr, true, false, func(q Pt) bool { return q == st.pt }, isPt(dpts))
+				return !escapes
+			}
 			// on failure of stage k: every earlier stage is released before returning, stage k and later are not
 			for j, other := range stages {
+				if j < k && deferredRelease(j) {
+					continue
+				}
 				if j < k {
 					// the earlier stage may have been skipped (nil limiter): releasing is required only on paths where it was taken.
 					found, w, decided := r.OnErr(st.pt, st.call, false, r.IsNormalExit, relOf(other.field))
